@@ -17,19 +17,29 @@
    5. layer (d): dec (enc x) = norm x for every well-formed x (wf_vocab, a boolean predicate; norm explicit and
       idempotent), generic over all tables that satisfy the conditions of 1, by induction on the nesting depth.
 
-   PARTIAL (C01_roundtrip_partial), the gap named: the theorem is proved for the class wf_vocab, which leaves out
-   values of the struct-valued properties source, endpoints and publicKey (objects that do not set them are
-   covered), nil-like entries (typed nil pointers, empty IRIs, empty lists), the Go type IRIs in an item position,
-   lists nested directly in lists, IRIs outside the URL grammar of Model/Url.v; texts are non-empty valid UTF-8 with
-   pairwise different language tags, and plain-string positions hold no backslash-quote pair (open finding
-   C02/backslash-quote).  The nesting of objects is bounded by 64, the fuel of the decoder model.  Inside that
-   class the statement is unconditional: the encoder model is defined, its output is not empty, the document is
-   inside the decoder model (no member name spelled two ways, nesting <= 130 < fastjson's 300) and decodes to norm x. *)
+   PARTIAL (C01_roundtrip_doc_partial; C01_roundtrip_depth_partial and C01_roundtrip_partial are its corollaries for
+   nesting <= 149 / <= 64), the gap named: the theorem is proved for the class wf_vocab.  Since builder b48 the class
+   holds values of the three leaf structs (source: media type and / or content; endpoints: any non-empty subset of the
+   six, each any well-formed item; publicKey: id, owner or pem set), IRIs of the WIDE URL grammar (Model/UrlU.v: valid UTF-8
+   without quote, backslash, control byte, to which net/url gives a scheme and a host), and EVERY nesting whose document
+   the parser reads (at most 300 levels, fastjson's MaxDepth: C01_depth_limit_is_the_parsers; the fuel of the decoder
+   model bounds nothing: C01_model_fuel_is_no_limit).  Still outside: nil-like entries (typed nil pointers, empty IRIs,
+   empty lists, an Endpoints with no member, a Source whose content writes nothing), the Go type IRIs in an item position, lists nested directly in lists, IRIs that are not
+   valid UTF-8 or that Value.String() would re-escape; texts are non-empty valid UTF-8 with pairwise different language
+   tags, and plain-string positions hold no backslash-quote pair (open finding C02/backslash-quote).  List members are
+   pairwise different under the decoder's de-duplication (distinct_items, a boolean hypothesis: ItemCollection.Append
+   through ItemsEqual).  MODEL REPAIR by b48: the decoder model appended with the plain-grammar instance of IRI.Equals
+   (Model/IriEq.v), faithful on the plain grammar only; on a list holding two spellings that only the wide URL comparison
+   identifies (a%41 / aA) the code keeps one member, the model kept two.  Model/JsonDec.v now appends with the wide
+   instance (CoG.ic_append iri_equ, Model/IriEqU.v), and so do distinct_items and Model/Shape.v list_value; the witnesses
+   are compared on every run (Cases_C01_widelist).
+   Inside the class the statement is unconditional: the encoder model is defined, its output is not empty, the document
+   is inside the decoder model (no member name spelled two ways) and decodes to norm x. *)
 From AP.Model Require Import Prelude Bytes Vocab Pred Url Nlv Layout Json JsonLeaf JsonTables Text JsonEnc JsonTree JsonCheck
      JsonDec JsonCodec JsonNorm JsonRoundCheck.
 From AP.Gen Require Import Layout TypeLists JsonW JsonR.
 From AP.Proofs Require Import TextP C01NumP C01TimeP C01StrP C01TextP C01TreeP C01ParseP C01TreeWfP C01FlatP C01ItemP
-     C01FieldP C01RoundP C01NormP.
+     C01FieldP C01LeafP C01RoundP C01NormP.
 Local Open Scope nat_scope.
 
 (* ------------------------------------------------------------------ 1. table conditions *)
@@ -104,8 +114,14 @@ Proof. exact escape_quote_decodes. Qed.
 Theorem C01_leaf_string_full : forall html s, utf8_valid s = true -> fj_unescape (string_bytes_body html s) = s.
 Proof. exact string_bytes_decodes. Qed.
 
+(* IRIs on the WIDE grammar of Model/UrlU.v (valid UTF-8 without quote, backslash, control byte, to which net/url gives
+   a scheme and a host: bytes >= 0x80, percent-escapes, spaces, userinfo, IP literals) *)
 Theorem C01_leaf_iri : forall s, iri_ok s = true -> as_iri (Text.FStr (escape_quote s)) = Some (Some s).
 Proof. exact as_iri_valid. Qed.
+
+(* ... which contains the plain grammar of Model/Url.v the theorem was stated for before *)
+Theorem C01_iri_class_extends_plain : forall s, iri_ok_plain s = true -> iri_ok s = true.
+Proof. exact iri_ok_of_plain. Qed.
 
 (* single- and multi-language maps: a lone entry returns untagged, two or more return as they are *)
 Theorem C01_leaf_text : forall t l, key_plain t = true -> text_ok l = true ->
@@ -143,22 +159,29 @@ Section FieldLevel.
     tree_item jw f (IObj p k fs) = Some o -> exists kvs, o = Some (FObj kvs).
   Hypothesis sub_read : forall f p k fs kvs, wf_item lay reg lsw acts actors links (IObj p k fs) = true -> ddepth (IObj p k fs) <= g ->
     tree_item jw f (IObj p k fs) = Some (Some (FObj kvs)) -> li (FObj kvs) = Some (norm_item lay (IObj p k fs)).
-  Hypothesis sub_iri : forall raw u, 1 <= g -> url_classify (fj_unescape raw) = UValid u ->
-    li (Text.FStr raw) = Some (IIri false (fj_unescape raw)).
+  Hypothesis sub_iri : forall raw s, 1 <= g -> as_iri (Text.FStr raw) = Some (Some s) -> li (Text.FStr raw) = Some (IIri false s).
   Hypothesis sub_tree : forall f p k fs kvs, wf_item lay reg lsw acts actors links (IObj p k fs) = true -> ddepth (IObj p k fs) <= g ->
     tree_item jw f (IObj p k fs) = Some (Some (FObj kvs)) -> tree_ok (2 * ddepth (IObj p k fs) + 1) (FObj kvs).
+  Hypothesis sub_deep : forall f p k fs kvs, wf_item lay reg lsw acts actors links (IObj p k fs) = true -> ddepth (IObj p k fs) <= g ->
+    tree_item jw f (IObj p k fs) = Some (Some (FObj kvs)) -> ddepth (IObj p k fs) <= S (fdepth (FObj kvs)).
 
-  (* a set field: what its write entry contributed is not empty, and its read entry gets the value back, normalised *)
+  (* a set field - of ANY Go type of the vocabulary, the three leaf structs included (for those under leaf_ok, the
+     condition on the struct's own tables): what its write entry contributed is one member, inside the decoder model,
+     between the nesting of the value and 2 * that + 2 deep (member_ok), and its read entry gets the value back,
+     normalised *)
   Theorem C01_field_set : forall d fs ms, forallb (fun kv => key_plain (fst kv)) ms = true ->
     forall ty f e r o v,
-    pair_ok ty f e r = true ->
+    pair_ok ty f e r = true -> leaf_cond jw jr ty r ->
     entry_out jw (tree_item jw fe) d fs e = Some o ->
     (forall k0, In k0 (keys_of e) -> find_key (fun k => k) ms k0 = find_key (fun k => k) o k0) ->
     getf f fs = Some v -> wf_fval lay reg lsw acts actors links ty v = true -> fdepth_v v <= g ->
-    o <> [] /\ (forall kv, In kv o -> tree_ok (2 * fdepth_v v + 2) (snd kv)) /\
+    o <> [] /\ (forall kv, In kv o -> member_ok v (snd kv)) /\
     exists x, get_value jr li 3 (FObj ms) (rf_getter r) (rf_term r) (rf_conv r) = Some (Some x)
               /\ link_guard (rf_guard r) x = norm_fval lay v /\ fval_is_zero (norm_fval lay v) = false.
-  Proof. exact (field_set jw jr lay reg lsw acts actors links li g fe sub_written sub_read sub_iri sub_tree). Qed.
+  Proof.
+    intros d fs ms Hms ty f e r o v.
+    exact (C01LeafP.field_set jw jr lay reg lsw acts actors links li g fe sub_written sub_read sub_iri sub_tree sub_deep d fs ms Hms 1 ty f e r o v).
+  Qed.
 
   (* an unset field: whatever its write entry wrote (nothing, 0, false, "") is read as the zero value *)
   Theorem C01_field_unset : forall d fs ms, forallb (fun kv => key_plain (fst kv)) ms = true ->
@@ -171,7 +194,30 @@ Section FieldLevel.
     (forall kv, In kv o -> tree_ok 2 (snd kv)) /\
     exists ox, get_value jr li 3 (FObj ms) (rf_getter r) (rf_term r) (rf_conv r) = Some ox
                /\ match ox with None => True | Some x => fval_is_zero (link_guard (rf_guard r) x) = true end.
-  Proof. exact (field_unset jw jr li fe). Qed.
+  Proof. intros d fs ms Hms ty f e r o. exact (C01LeafP.field_unset jw jr li fe d fs ms Hms 1 ty f e r o). Qed.
+
+  (* THE LEAF STRUCTS (Source, Endpoints, PublicKey), generic over their write and read tables: under leaf_ok, what the
+     struct's MarshalJSON table writes for the parts of a well-formed value is a JSON object that is not empty, inside
+     the decoder model, and every read entry of the struct's table (seen from the struct's own object: leaf_strip)
+     gets its part back in normal form, or nothing when the part is unset *)
+  Theorem C01_leaf_struct : forall outer ty ifs d' dg o,
+    leaf_ok jw jr outer ty = true ->
+    (forall f v, getf f ifs = Some v -> exists ity, leaf_type ty f = Some ity /\ wf_fval lay reg lsw acts actors links ity v = true /\ fdepth_v v <= g) ->
+    (exists f v, getf f ifs = Some v) ->
+    t_struct (t_run_table jw (S d') (tree_item jw fe)) (leaf_wtable ty) ifs = Some o ->
+    exists ms rstmts rs0 rs,
+      o = Some (FObj ms) /\
+      jr_table jr (leaf_rtable ty) = Some rstmts /\ leaf_reads rstmts = Some rs0 /\ leaf_strip_all outer ty rs0 = Some rs /\
+      NoDup (map rf_fid rs) /\
+      (forall d0, In d0 (leaf_layout ty) -> existsb (fun r => fid_beq (fst d0) (rf_fid r)) rs = true) /\
+      keys_clean (FObj ms) = true /\
+      forallb (fun kv => key_plain (fst kv)) ms = true /\
+      (forall n, (forall f v, getf f ifs = Some v -> fdepth_v v <= n) -> fdepth (FObj ms) <= 2 * n + 3) /\
+      (forall f v, getf f ifs = Some v -> fdepth_v v <= fdepth (FObj ms)) /\
+      (forall r, In r rs -> key_plain (rf_term r) = true) /\
+      forall r, In r rs ->
+        step_spec_g lay (fun r => get_value jr li (S dg) (FObj ms) (rf_getter r) (rf_term r) (rf_conv r)) ifs r.
+  Proof. exact (leaf_round jw jr lay reg lsw acts actors links li g fe sub_written sub_read sub_iri sub_tree sub_deep). Qed.
 End FieldLevel.
 
 (* ------------------------------------------------------------------ 5. layer (d): object level *)
@@ -184,6 +230,41 @@ Theorem C01_roundtrip_generic :
   exists b, marshal_json jw x = Some b /\ b <> [] /\
             unmarshal_json jr lay reg lsw acts actors links b = Some (Ok (norm_item lay x)).
 Proof. intros jw jr lay reg lsw acts actors links Hk Ht x. exact (json_roundtrip jw jr lay reg lsw acts actors links Hk x Ht). Qed.
+
+(* the same at FULL strength in the depth: every well-formed value whose DOCUMENT nests at most 300 deep - the limit of
+   the parser the code uses (fastjson's MaxDepth; UnmarshalJSON fails beyond it: C01_depth_limit_is_the_parsers).  The
+   fuel of the decoder model (301) is above the nesting of every document the parser reads, so it bounds nothing. *)
+Theorem C01_roundtrip_doc_generic :
+  forall jw jr lay reg lsw acts actors links,
+  kinds_ok jw jr lay = true -> terms_raw_ok jw = true ->
+  forall x,
+  wf_item lay reg lsw acts actors links x = true ->
+  (forall v, tree_of jw x = Some (Some v) -> fdepth v <= 300) ->
+  exists b, marshal_json jw x = Some b /\ b <> [] /\
+            unmarshal_json jr lay reg lsw acts actors links b = Some (Ok (norm_item lay x)).
+Proof. intros jw jr lay reg lsw acts actors links Hk Ht x. exact (json_roundtrip_doc jw jr lay reg lsw acts actors links Hk x Ht). Qed.
+
+(* a sufficient condition on the value alone: objects (leaf structs count as one) nest at most 149 deep *)
+Theorem C01_roundtrip_depth_generic :
+  forall jw jr lay reg lsw acts actors links,
+  kinds_ok jw jr lay = true -> terms_raw_ok jw = true ->
+  forall x,
+  wf_item lay reg lsw acts actors links x = true -> ddepth x <= 149 ->
+  exists b, marshal_json jw x = Some b /\ b <> [] /\
+            unmarshal_json jr lay reg lsw acts actors links b = Some (Ok (norm_item lay x)).
+Proof. intros jw jr lay reg lsw acts actors links Hk Ht x. exact (json_roundtrip_depth jw jr lay reg lsw acts actors links Hk x Ht). Qed.
+
+(* the nesting of the written document lies between the nesting of the value (less one) and twice that plus two *)
+Theorem C01_document_depth_generic :
+  forall jw jr lay reg lsw acts actors links,
+  kinds_ok jw jr lay = true ->
+  forall x o, wf_item lay reg lsw acts actors links x = true -> tree_of jw x = Some o ->
+  exists v, o = Some v /\ keys_clean v = true /\ ddepth x <= S (fdepth v) /\ fdepth v <= 2 * ddepth x + 2.
+Proof.
+  intros jw jr lay reg lsw acts actors links Hk x o Hw Ht.
+  destruct (tree_round_doc jw jr lay reg lsw acts actors links Hk x o Hw Ht) as [v [-> [[H1 H2] [H3 _]]]].
+  exists v. repeat split; assumption.
+Qed.
 
 (* the encoder model is defined on every well-formed value (for all tables satisfying kinds_ok) *)
 Theorem C01_enc_defined_generic :
@@ -205,6 +286,25 @@ Theorem C01_roundtrip_partial : forall x,
 Proof.
   intros x Hw Hd.
   exact (json_roundtrip jw_tables jr_tables layout_of registry load_switch tl_ActivityTypes tl_ActorTypes tl_LinkTypes
+           C01_round_tables x C01_terms_closed Hw Hd).
+Qed.
+
+(* the two stronger forms on the tables of the current tree *)
+Theorem C01_roundtrip_doc_partial : forall x,
+  wf_vocab x = true -> (forall v, tree_of jw_tables x = Some (Some v) -> fdepth v <= 300) ->
+  exists b, enc x = Some b /\ b <> [] /\ dec b = Some (Ok (norm x)).
+Proof.
+  intros x Hw Hd.
+  exact (json_roundtrip_doc jw_tables jr_tables layout_of registry load_switch tl_ActivityTypes tl_ActorTypes tl_LinkTypes
+           C01_round_tables x C01_terms_closed Hw Hd).
+Qed.
+
+Theorem C01_roundtrip_depth_partial : forall x,
+  wf_vocab x = true -> ddepth x <= 149 ->
+  exists b, enc x = Some b /\ b <> [] /\ dec b = Some (Ok (norm x)).
+Proof.
+  intros x Hw Hd.
+  exact (json_roundtrip_depth jw_tables jr_tables layout_of registry load_switch tl_ActivityTypes tl_ActorTypes tl_LinkTypes
            C01_round_tables x C01_terms_closed Hw Hd).
 Qed.
 
@@ -274,6 +374,107 @@ Example C01_leaf_domains :
   /\ time_dom (-62167219200) = true /\ time_dom 253402300799 = true /\ dur_dom (-9223372036000000000) = true
   /\ iri_ok (B "https://example.com/a?b=c#d") = true /\ str_ok (B "caf" ++ [xc3; xa9] ++ B " ""quoted"" \ back") = true.
 Proof. repeat split; vm_compute; reflexivity. Qed.
+
+(* ---- leaf structs, IRIs of the wide grammar: a value the harness runs (harness/c01.go c01Directed, "leaf structs and
+   wide IRIs") is in the class; the modelled encoder and decoder take it to the normal form written here: the lone
+   tagged content of the source untagged, the endpoints in struct order, everything else as it was *)
+Definition c01_wide_iri : bytes := hx "68747470733a2f2f6578c3a46d706c652e636f6d2f636166c3a92f6125323062".   (* https://exämple.com/café/a%20b *)
+Definition c01_leaf_example : item :=
+  IObj true KActor
+    [(F_ID, Vocab.FStr (B "https://example.com/actors/alice")); (F_Type, Vocab.FStr (B "Person"));
+     (F_Image, FItem (IIri false c01_wide_iri));
+     (F_Attachment, FItem (IObj true KObject
+        [(F_ID, Vocab.FStr (B "https://example.com/notes/1")); (F_Type, Vocab.FStr (B "Note"));
+         (F_Source, FSource (B "text/markdown") (Some [(B "en", B "*hi*")]))]));
+     (F_Endpoints, FEndpoints (Some [(F_UploadMedia, IIri false (B "https://example.com/up"));
+                                     (F_OauthTokenEndpoint, IIri false (B "https://user@[::1]:8443/token"));
+                                     (F_SharedInbox, IIri false (B "https://example.com/inbox"))]));
+     (F_PublicKey, FPubKey (B "https://example.com/actors/alice#main-key") (B "https://example.com/actors/alice")
+                           (B "-----BEGIN PUBLIC KEY-----" ++ [x0a] ++ B "MIIB" ++ [x0a] ++ B "-----END PUBLIC KEY-----"))].
+
+Definition c01_leaf_example_norm : item :=
+  IObj true KActor
+    [(F_ID, Vocab.FStr (B "https://example.com/actors/alice")); (F_Type, Vocab.FStr (B "Person"));
+     (F_Attachment, FItem (IObj true KObject
+        [(F_ID, Vocab.FStr (B "https://example.com/notes/1")); (F_Type, Vocab.FStr (B "Note"));
+         (F_Source, FSource (B "text/markdown") (Some [(B "-", B "*hi*")]))]));
+     (F_Image, FItem (IIri false c01_wide_iri));
+     (F_Endpoints, FEndpoints (Some [(F_UploadMedia, IIri false (B "https://example.com/up"));
+                                     (F_OauthTokenEndpoint, IIri false (B "https://user@[::1]:8443/token"));
+                                     (F_SharedInbox, IIri false (B "https://example.com/inbox"))]));
+     (F_PublicKey, FPubKey (B "https://example.com/actors/alice#main-key") (B "https://example.com/actors/alice")
+                           (B "-----BEGIN PUBLIC KEY-----" ++ [x0a] ++ B "MIIB" ++ [x0a] ++ B "-----END PUBLIC KEY-----"))].
+
+Example C01_leaf_struct_example :
+  wf_vocab c01_leaf_example = true /\ ddepth c01_leaf_example <= 149 /\ norm c01_leaf_example = c01_leaf_example_norm
+  /\ iri_ok c01_wide_iri = true /\ iri_ok_plain c01_wide_iri = false
+  /\ iri_ok (B "https://user@[::1]:8443/token") = true /\ iri_ok_plain (B "https://user@[::1]:8443/token") = false
+  /\ exists b, enc c01_leaf_example = Some b /\ dec b = Some (Ok c01_leaf_example_norm).
+Proof.
+  split; [vm_compute; reflexivity|]. split; [vm_compute; repeat constructor|]. split; [vm_compute; reflexivity|].
+  split; [vm_compute; reflexivity|]. split; [vm_compute; reflexivity|]. split; [vm_compute; reflexivity|]. split; [vm_compute; reflexivity|].
+  exists (match enc c01_leaf_example with Some b => b | None => [] end). split; vm_compute; reflexivity.
+Qed.
+
+(* the conditions on the tables of the three leaf structs, on the tables of this run (they are part of kinds_ok) *)
+Theorem C01_leaf_tables :
+  leaf_ok jw_tables jr_tables (B "source") TSource = true /\ leaf_ok jw_tables jr_tables (B "endpoints") TEndpoints = true
+  /\ leaf_ok jw_tables jr_tables (B "publicKey") TPubKey = true.
+Proof. repeat split; vm_compute; reflexivity. Qed.
+
+(* ---- the depth: the bound of the theorem is the parser's.  299 objects nested through `attachment` (a value 299
+   deep, far beyond the 149 of the sufficient condition) write a document 300 deep (the innermost string counts one
+   level: fastjson's parseValue is entered once more for it) and come back; one more object and fastjson refuses the
+   document ("too big depth"): UnmarshalJSON returns an error, in the model and in the code (harness/c01.go replays
+   both natively) *)
+Fixpoint c01_nest (n : nat) : item :=
+  match n with
+  | O => IObj true KObject [(F_ID, Vocab.FStr (B "https://example.com/o"))]
+  | S m => IObj true KObject [(F_ID, Vocab.FStr (B "https://example.com/o")); (F_Attachment, FItem (c01_nest m))]
+  end.
+
+Definition c01_round_ok (x : item) : bool :=
+  match enc x with
+  | Some b => match dec b with Some (Ok y) => item_eqb y (norm x) | _ => false end
+  | None => false
+  end.
+Definition c01_refused (x : item) : bool :=
+  match enc x with Some b => match dec b with Some Err => true | _ => false end | None => false end.
+Definition c01_doc_depth (x : item) : nat := match tree_of jw_tables x with Some (Some v) => fdepth v | _ => O end.
+
+Theorem C01_depth_limit_is_the_parsers :
+  (wf_vocab (c01_nest 298) = true /\ ddepth (c01_nest 298) = 299 /\ c01_doc_depth (c01_nest 298) = 300 /\ c01_round_ok (c01_nest 298) = true) /\
+  (wf_vocab (c01_nest 299) = true /\ c01_doc_depth (c01_nest 299) = 301 /\ c01_refused (c01_nest 299) = true).
+Proof. repeat match goal with |- _ /\ _ => split end; vm_compute; reflexivity. Qed.
+
+(* ... and the hypothesis of C01_roundtrip_doc_partial holds of values beyond the 149 of the sufficient condition *)
+Example C01_roundtrip_beyond_149 :
+  149 < ddepth (c01_nest 160) /\ exists b, enc (c01_nest 160) = Some b /\ b <> [] /\ dec b = Some (Ok (norm (c01_nest 160))).
+Proof.
+  split; [vm_compute; repeat constructor|].
+  apply C01_roundtrip_doc_partial; [vm_compute; reflexivity|].
+  intros v Hv. assert (E : Nat.leb (c01_doc_depth (c01_nest 160)) 300 = true) by (vm_compute; reflexivity).
+  unfold c01_doc_depth in E. rewrite Hv in E. apply Nat.leb_le. exact E.
+Qed.
+
+(* ---- the fuel of the decoder model bounds nothing (Proofs/DecFuelP.v).  Generic over the tables: with fuel at least
+   the nesting of the document the model answers as with any larger fuel; what the parser reads nests at most 300 deep;
+   so for every document the decoder gets, its fuel of 301 is as good as any (JSONLoadItem itself has no depth limit) *)
+From AP.Proofs Require Import DecFuelP.
+
+Theorem C01_fuel_sufficient : forall jr lay reg lsw acts actors links f v, fdepth v <= f ->
+  forall k, load_item jr lay reg lsw acts actors links (f + k) v = load_item jr lay reg lsw acts actors links f v.
+Proof. exact load_item_fuel. Qed.
+
+Theorem C01_parser_depth : forall b v, fj_parse b = Ok v -> fdepth v <= 300.
+Proof. exact fj_parse_depth. Qed.
+
+Theorem C01_model_fuel_is_no_limit : forall jr lay reg lsw acts actors links b v k, fj_parse b = Ok v ->
+  unmarshal_core_g jr lay reg lsw acts actors links (json_dec_fuel + k) v = unmarshal_core jr lay reg lsw acts actors links v.
+Proof.
+  intros jr lay reg lsw acts actors links b v k Hp. rewrite unmarshal_core_is_g.
+  apply unmarshal_fuel_enough. exact (fj_parse_depth b v Hp).
+Qed.
 
 (* ------------------------------------------------------------------ defects of the pinned tree found by the proof *)
 (* 1. notEmptyObject tested Duration > 0: a well-formed negative duration did not count, so an object with nothing
